@@ -338,4 +338,352 @@ theorem invF_task_put (h : InvF idle n cl ts prog) (k c : Nat) (p : List DStep) 
 
 end pres
 
+/-! ### the counter movements do not touch what the invariant reads -/
+structure Frame (s s' : State) : Prop where
+  idle : s'.idle = s.idle
+  client : s'.client = s.client
+  tasks : s'.tasks = s.tasks
+  nClients : s'.nClients = s.nClients
+  prog : s'.prog = s.prog
+  kind : s'.kind = s.kind
+  maxReq : s'.maxReq = s.maxReq
+  liveN : s'.liveN = s.liveN
+  ext : s'.ext = s.ext
+
+theorem frame_applyMove (s : State) (m : Nat) : Frame s (applyMove s m) := by
+  unfold applyMove; split <;> constructor <;> rfl
+
+theorem frame_applyMoves (s : State) (l : List Nat) : Frame s (applyMoves s l) := by
+  induction l generalizing s with
+  | nil => constructor <;> rfl
+  | cons a r ih =>
+    have f1 := frame_applyMove s a
+    have f2 := ih (applyMove s a)
+    have e : applyMoves s (a :: r) = applyMoves (applyMove s a) r := rfl
+    rw [e]
+    exact ⟨f2.idle.trans f1.idle, f2.client.trans f1.client, f2.tasks.trans f1.tasks, f2.nClients.trans f1.nClients,
+      f2.prog.trans f1.prog, f2.kind.trans f1.kind, f2.maxReq.trans f1.maxReq, f2.liveN.trans f1.liveN, f2.ext.trans f1.ext⟩
+
+theorem inv_of_frame {s s' : State} (f : Frame s s') : Inv s' ↔ Inv s := by
+  unfold Inv; rw [f.idle, f.client, f.tasks, f.nClients, f.prog]
+
+theorem inv_applyMoves (s : State) (l : List Nat) : Inv (applyMoves s l) ↔ Inv s := inv_of_frame (frame_applyMoves s l)
+
+/-! ### NewStream -/
+theorem acquire_spec (s : State) (d : Dial) (s1 : State) (r : Res) (he : acquire s d = (s1, r)) :
+    (∃ t, s.idle = [] ∧ s1 = newClient { s with total := t } ∧ r = .ok s.nClients) ∨
+    (s.idle ≠ [] ∧ s1 = { s with idle := s.idle.dropLast } ∧ r = .ok (s.idle.getLast?.getD 0)) ∨
+    (∃ t, (∀ c, r ≠ .ok c) ∧ s1 = { s with total := t }) := by
+  simp only [acquire] at he
+  split at he
+  · rename_i hi
+    have hi' : s.idle = [] := by simpa using hi
+    (repeat' split at he) <;> (obtain ⟨rfl, rfl⟩ := Prod.mk.inj he) <;>
+      first
+      | exact Or.inl ⟨_, hi', rfl, rfl⟩
+      | exact Or.inr (Or.inr ⟨_, fun c hc => (by cases hc), rfl⟩)
+      | exact Or.inr (Or.inr ⟨s.total, fun c hc => (by cases hc), rfl⟩)
+  · rename_i hi
+    split at he <;> (obtain ⟨rfl, rfl⟩ := Prod.mk.inj he)
+    · exact Or.inr (Or.inr ⟨s.total, fun c hc => (by cases hc), rfl⟩)
+    · exact Or.inr (Or.inl ⟨by simpa using hi, rfl, rfl⟩)
+
+theorem frame_newClient (s : State) : Frame { s with nClients := s.nClients + 1, openN := s.openN + 1, client := fun k => if k = s.nClients then {} else s.client k } (newClient s) :=
+  frame_applyMoves _ _
+
+theorem inv_lease_new (s : State) (h : Inv s) : Inv (lease (newClient s) s.nClients) := by
+  unfold lease
+  rw [inv_applyMoves]
+  have f := frame_newClient s
+  show InvF (newClient s).idle (newClient s).nClients _ (newClient s).tasks (newClient s).prog
+  rw [f.idle, f.tasks, f.nClients, f.prog]
+  refine invF_new h _ ?_ ?_
+  · simp only [State.updC, if_true]; rw [f.client]; simp
+  · intro k hk; simp only [State.updC, if_neg hk]; rw [f.client]; simp [hk]
+
+theorem inv_lease_pop (s : State) (h : Inv s) (hi : s.idle ≠ []) :
+    Inv (lease { s with idle := s.idle.dropLast } (s.idle.getLast?.getD 0)) := by
+  unfold lease
+  rw [inv_applyMoves]
+  rcases List.eq_nil_or_concat s.idle with e | ⟨ys, c, e⟩
+  · exact absurd e hi
+  · rw [List.concat_eq_append] at e
+    have h' : InvF (ys ++ [c]) s.nClients s.client s.tasks s.prog := e ▸ h
+    show InvF s.idle.dropLast s.nClients _ s.tasks s.prog
+    have e1 : s.idle.dropLast = ys := by rw [e]; simp
+    have e2 : s.idle.getLast?.getD 0 = c := by rw [e]; simp
+    rw [e1]
+    refine invF_pop h' _ ?_ ?_
+    · simp [State.updC, e2]
+    · intro k hk; simp [State.updC, e2, hk]
+
+theorem inv_newStream (s : State) (d : Dial) (h : Inv s) : Inv (newStream s d).1 := by
+  unfold newStream
+  split
+  · rcases hacq : acquire s d with ⟨s1, r⟩
+    rcases acquire_spec s d s1 r hacq with ⟨t, hi, rfl, rfl⟩ | ⟨hi, rfl, rfl⟩ | ⟨t, hr, rfl⟩
+    · exact inv_lease_new { s with total := t } h
+    · exact inv_lease_pop s h hi
+    · cases r with
+      | ok c => exact absurd rfl (hr c)
+      | none => exact h
+      | overflow => exact h
+      | connFail _ => exact h
+  · exact h
+
+/-! ### end of a request -/
+theorem Q_endMarks (k : Kind) (cause : Cause) (cl : Client) (hn : cl.netOpen = true) (hd : cl.dirty = false)
+    (hc : cl.closed = false) (hg : cause = .remoteReset → k = .h1) : Q { endMarks k cause cl with live := false } := by
+  unfold Q; right
+  cases cause <;> cases k <;>
+    simp_all [endMarks, markClose, h1MarkClose, ppMarkClose, reasonStreamLocalReset, reasonStreamRemoteReset]
+
+theorem inv_endStream (s : State) (c : Nat) (cause : Cause) (h : Inv s) : Inv (step s (.endStream c cause)).1 := by
+  simp only [step]
+  split
+  · rename_i hg
+    have hl := h.liveOk c hg.1 hg.2.1
+    refine invF_end h c hg.1 hg.2.1 _ ?_ ?_ ?_
+    · simp [State.updC]
+    · simp only [State.updC, if_true]
+      exact Q_endMarks s.kind cause (s.client c) hl.2.1 hl.2.2.2 hl.2.2.1 hg.2.2
+    · intro k hk; simp [State.updC, hk]
+  · exact h
+
+/-! ### the pool's close handler -/
+theorem frame_poolOnClose (s : State) (c : Nat) :
+    Frame { s.updC c (fun cl => { cl with closed := true }) with
+               total := s.total + MosnVerif.Model.Pool.closeDelta s.kind, idle := removeIdle s.kind s.idle c } (poolOnClose s c) :=
+  frame_applyMoves _ _
+
+theorem poolOnClose_idle (s : State) (c : Nat) : (poolOnClose s c).idle = removeIdle s.kind s.idle c := (frame_poolOnClose s c).idle
+theorem poolOnClose_tasks (s : State) (c : Nat) : (poolOnClose s c).tasks = s.tasks := (frame_poolOnClose s c).tasks
+theorem poolOnClose_nClients (s : State) (c : Nat) : (poolOnClose s c).nClients = s.nClients := (frame_poolOnClose s c).nClients
+theorem poolOnClose_prog (s : State) (c : Nat) : (poolOnClose s c).prog = s.prog := (frame_poolOnClose s c).prog
+theorem poolOnClose_liveN (s : State) (c : Nat) : (poolOnClose s c).liveN = s.liveN := (frame_poolOnClose s c).liveN
+theorem poolOnClose_client_self (s : State) (c : Nat) : (poolOnClose s c).client c = { s.client c with closed := true } := by
+  rw [(frame_poolOnClose s c).client]; simp [State.updC]
+theorem poolOnClose_client_ne (s : State) (c k : Nat) (hk : k ≠ c) : (poolOnClose s c).client k = s.client k := by
+  rw [(frame_poolOnClose s c).client]; simp [State.updC, hk]
+
+/-- the connection of `c` is marked closed (first half of `netClose`) -/
+def Y (s : State) (c : Nat) : State := { s.updC c (fun cl => { cl with netOpen := false }) with openN := s.openN - 1 }
+/-- … and the pool's handler has run -/
+def X (s : State) (c : Nat) : State := poolOnClose (Y s c) c
+
+theorem X_idle (s : State) (c : Nat) : (X s c).idle = removeIdle s.kind s.idle c := poolOnClose_idle (Y s c) c
+theorem X_tasks (s : State) (c : Nat) : (X s c).tasks = s.tasks := poolOnClose_tasks (Y s c) c
+theorem X_nClients (s : State) (c : Nat) : (X s c).nClients = s.nClients := poolOnClose_nClients (Y s c) c
+theorem X_prog (s : State) (c : Nat) : (X s c).prog = s.prog := poolOnClose_prog (Y s c) c
+theorem X_liveN (s : State) (c : Nat) : (X s c).liveN = s.liveN := poolOnClose_liveN (Y s c) c
+theorem X_client_self (s : State) (c : Nat) :
+    (X s c).client c = { s.client c with netOpen := false, closed := true } := by
+  unfold X; rw [poolOnClose_client_self]; simp [Y, State.updC]
+theorem X_client_ne (s : State) (c k : Nat) (hk : k ≠ c) : (X s c).client k = s.client k := by
+  unfold X; rw [poolOnClose_client_ne _ _ _ hk]; simp [Y, State.updC, hk]
+
+theorem step_netClose_eq (s : State) (c : Nat) : step s (.netClose c) =
+    if c < s.nClients ∧ (s.client c).netOpen = true then
+      (if (s.client c).live = true then
+        ({ (X s c).updC c (fun cl => { cl with live := false, dirty := true }) with
+           liveN := (X s c).liveN - 1, tasks := (X s c).tasks ++ [(c, (X s c).prog)] }, .none)
+      else (X s c, .none))
+    else (s, .none) := rfl
+
+theorem inv_netClose (s : State) (c : Nat) (h : Inv s) : Inv (step s (.netClose c)).1 := by
+  rw [step_netClose_eq]
+  split
+  · rename_i hg
+    split
+    · rename_i hl
+      have hci : c ∉ s.idle := fun hm => by have := (h.clean c hm).2.2.2.2; rw [hl] at this; cases this
+      show InvF (X s c).idle (X s c).nClients
+        (fun k => if k = c then { (X s c).client c with live := false, dirty := true } else (X s c).client k)
+        ((X s c).tasks ++ [(c, (X s c).prog)]) (X s c).prog
+      rw [X_idle, X_nClients, X_tasks, X_prog, removeIdle_of_not_mem _ _ _ hci]
+      refine invF_end h c hg.1 hl _ ?_ ?_ ?_
+      · simp
+      · simp only [if_true]; rw [X_client_self]; exact Or.inl rfl
+      · intro k hk; simp only [if_neg hk]; exact X_client_ne s c k hk
+    · rename_i hl
+      show InvF (X s c).idle (X s c).nClients (X s c).client (X s c).tasks (X s c).prog
+      rw [X_idle, X_nClients, X_tasks, X_prog]
+      exact invF_closeIdle h s.kind c hg.2 (by simpa using hl) _ (X_client_self s c) (fun k hk => X_client_ne s c k hk)
+  · exact h
+
+theorem inv_goAway (s : State) (c : Nat) (h : Inv s) : Inv (step s (.goAway c)).1 := by
+  simp only [step]
+  split
+  · refine invF_flag h c _ ?_ ?_
+    · simp [State.updC]
+    · intro k hk; simp [State.updC, hk]
+  · exact h
+
+/-! ### one statement of OnDestroyStream -/
+theorem taskOk_dec (cl : Client) (st : DStep) (rest : List DStep) (hst : st = .decHost ∨ st = .decCluster ∨ st = .decRes)
+    (h : taskOk cl (st :: rest)) : taskOk cl rest := by
+  unfold taskOk at *
+  rcases h with ⟨a, b⟩ | ⟨a, b⟩ | ⟨ret, r, e, _⟩
+  · exact Or.inl ⟨by rcases hst with rfl | rfl | rfl <;> simpa [progOk] using a, b⟩
+  · exact Or.inr (Or.inl ⟨by rcases hst with rfl | rfl | rfl <;> simpa [tailOk] using a, b⟩)
+  · rcases hst with rfl | rfl | rfl <;> simp at e
+
+theorem inv_dec (s : State) (h : Inv s) (m k c : Nat) (st : DStep) (rest : List DStep)
+    (hk : s.tasks[k]? = some (c, st :: rest)) (hst : st = .decHost ∨ st = .decCluster ∨ st = .decRes) :
+    Inv { applyMove s m with tasks := setTask (applyMove s m).tasks k c rest } := by
+  have f := frame_applyMove s m
+  show InvF _ _ _ _ _
+  simp only []
+  rw [f.idle, f.client, f.tasks, f.nClients, f.prog]
+  have hc := h.task c _ (List.mem_of_getElem? hk)
+  exact invF_task_keep h k c _ hk s.client (fun _ _ => rfl) hc.2.2.1 rest (fun _ => taskOk_dec _ st rest hst hc.2.2.2)
+
+theorem inv_taskStep (s : State) (k : Nat) (h : Inv s) : Inv (step s (.taskStep k)).1 := by
+  simp only [step]
+  split
+  · rename_i c st rest hk
+    have hc := h.task c _ (List.mem_of_getElem? hk)
+    cases st with
+    | decHost => exact inv_dec s h 0 k c _ rest hk (Or.inl rfl)
+    | decCluster => exact inv_dec s h 1 k c _ rest hk (Or.inr (Or.inl rfl))
+    | decRes => exact inv_dec s h 2 k c _ rest hk (Or.inr (Or.inr rfl))
+    | bad =>
+      exfalso
+      have := hc.2.2.2
+      simp [taskOk, progOk, tailOk] at this
+    | put =>
+      have ht := hc.2.2.2
+      have hr : rest = [] ∧ P (s.client c) := by
+        cases rest <;> simpa [taskOk, progOk, tailOk] using ht
+      obtain ⟨rfl, hP⟩ := hr
+      have hpbF : putBack s.kind false = true := by cases s.kind <;> rfl
+      have hpbT : putBack s.kind true = false := by cases s.kind <;> rfl
+      cases hcl : (s.client c).closed
+      · have hP' : (s.client c).netOpen = true ∧ (s.client c).dirty = false := by
+          rcases hP with hP | hP
+          · rw [hcl] at hP; cases hP
+          · exact hP
+        simp only [execStep, hcl, hpbF, if_true]
+        exact invF_task_put h k c _ hk hcl hP'.1 hP'.2
+      · simp only [execStep, hcl, hpbT, Bool.false_eq_true, if_false]
+        exact invF_task_keep h k c _ hk s.client (fun _ _ => rfl) hc.2.2.1 [] (fun hne => absurd rfl hne)
+    | closeIf ret =>
+      have ht : tailOk rest = true ∧ Q (s.client c) := by
+        simpa [taskOk, progOk, tailOk] using hc.2.2.2
+      have hcd : closeOnDestroy s.kind (s.client c).closed (s.client c).closeConn =
+          (!(s.client c).closed && (s.client c).closeConn) := by cases s.kind <;> rfl
+      have hcdT : closeOnDestroy s.kind false true = true := by cases s.kind <;> rfl
+      by_cases hclose : (s.client c).closed = false ∧ (s.client c).closeConn = true
+      · have hnet : (s.client c).netOpen = true := by
+          rcases ht.2 with hq | hq
+          · rw [hclose.1] at hq; cases hq
+          · exact hq.1
+        simp only [execStep, hclose.1, hclose.2, hcdT, hnet, if_true]
+        show InvF s.idle s.nClients (fun x => if x = c then { s.client c with netOpen := false } else s.client x)
+          (setTask s.tasks k c (.poolEvent ret :: rest)) s.prog
+        refine invF_task_keep h k c _ hk _ ?_ ?_ _ ?_
+        · intro x hx; simp [hx]
+        · simpa using hc.2.2.1
+        intro _
+        refine Or.inr (Or.inr ⟨ret, rest, rfl, ht.1, ?_, ?_⟩)
+        · simp
+        · simpa using hclose.1
+      · have hcd' : closeOnDestroy s.kind (s.client c).closed (s.client c).closeConn = false := by
+          rw [hcd]
+          cases h1 : (s.client c).closed <;> cases h2 : (s.client c).closeConn <;> simp_all
+        simp only [execStep, hcd', Bool.false_eq_true, if_false]
+        refine invF_task_keep h k c _ hk s.client (fun _ _ => rfl) hc.2.2.1 rest (fun _ => Or.inr (Or.inl ⟨ht.1, ?_⟩))
+        rcases ht.2 with hq | hq
+        · exact Or.inl hq
+        · cases h1 : (s.client c).closed
+          · refine Or.inr ⟨hq.1, ?_⟩
+            cases h3 : (s.client c).dirty
+            · rfl
+            · exact absurd ⟨h1, hq.2 h3⟩ hclose
+          · exact Or.inl h1
+    | poolEvent ret =>
+      have ht : tailOk rest = true ∧ (s.client c).netOpen = false ∧ (s.client c).closed = false := by
+        rcases hc.2.2.2 with ⟨a, _⟩ | ⟨a, _⟩ | ⟨ret', r, e, h1, h2, h3⟩
+        · simp [progOk] at a
+        · simp [tailOk] at a
+        · cases e; exact ⟨h1, h2, h3⟩
+      show InvF (poolOnClose s c).idle (poolOnClose s c).nClients (poolOnClose s c).client
+        (setTask (poolOnClose s c).tasks k c (if ret = true then [] else rest)) (poolOnClose s c).prog
+      rw [poolOnClose_idle, poolOnClose_nClients, poolOnClose_tasks, poolOnClose_prog, removeIdle_of_not_mem _ _ _ hc.2.1]
+      refine invF_task_keep h k c _ hk _ (fun x hx => poolOnClose_client_ne s c x hx)
+        (by rw [poolOnClose_client_self]; exact hc.2.2.1) _ (fun _ => Or.inr (Or.inl ⟨?_, ?_⟩))
+      · cases ret
+        · simpa using ht.1
+        · simp [tailOk]
+      · rw [poolOnClose_client_self]; exact Or.inl rfl
+  · exact h
+
+/-! ### all labels, all interleavings -/
+theorem inv_step (s : State) (l : Label) (h : Inv s) : Inv (step s l).1 := by
+  cases l with
+  | newStream d => exact inv_newStream s d h
+  | endStream c cause => exact inv_endStream s c cause h
+  | taskStep k => exact inv_taskStep s k h
+  | netClose c => exact inv_netClose s c h
+  | goAway c => exact inv_goAway s c h
+  | extInc => exact h
+  | extDec =>
+    simp only [step]
+    split
+    · exact h
+    · exact h
+
+theorem inv_run_of (s : State) (h : Inv s) (ls : List Label) : Inv (run s ls) := by
+  induction ls generalizing s with
+  | nil => exact h
+  | cons l r ih => exact ih (step s l).1 (inv_step s l h)
+
+theorem inv_init (k : Kind) (mc mr : Nat) (prog : List DStep) (h : progOk prog = true) : Inv (initWith k mc mr prog) :=
+  ⟨(by intro c hc; cases hc), List.nodup_nil, h, (by intro c hc; exact absurd hc (Nat.not_lt_zero c)), (by intro c p hp; cases hp), List.nodup_nil⟩
+
+theorem inv_run (k : Kind) (mc mr : Nat) (prog : List DStep) (h : progOk prog = true) (ls : List Label) :
+    Inv (run (initWith k mc mr prog) ls) := inv_run_of _ (inv_init k mc mr prog h) ls
+
+/-- the idle list only ever holds open, unclosed, clean connections without a request in flight -/
+theorem idle_clean_always (k : Kind) (mc mr : Nat) (prog : List DStep) (h : progOk prog = true) (ls : List Label) :
+    idleClean (run (initWith k mc mr prog) ls) := (inv_run k mc mr prog h ls).clean
+
+theorem lease_clean_of_inv (s : State) (h : Inv s) (d : Dial) (c : Nat) (s' : State)
+    (hs : step s (.newStream d) = (s', .ok c)) :
+    c = s.nClients ∨ (c < s.nClients ∧ (s.client c).dirty = false ∧ (s.client c).live = false ∧
+      (s.client c).netOpen = true ∧ (s.client c).closed = false) := by
+  simp only [step, newStream] at hs
+  split at hs
+  · rcases hacq : acquire s d with ⟨s1, r⟩
+    rw [hacq] at hs
+    rcases acquire_spec s d s1 r hacq with ⟨t, hi, rfl, rfl⟩ | ⟨hi, rfl, rfl⟩ | ⟨t, hr, rfl⟩
+    · simp only [Prod.mk.injEq, Res.ok.injEq] at hs
+      exact Or.inl hs.2.symm
+    · simp only [Prod.mk.injEq, Res.ok.injEq] at hs
+      right
+      have hm : c ∈ s.idle := by
+        rw [← hs.2]
+        rcases List.eq_nil_or_concat s.idle with e | ⟨ys, x, e⟩
+        · exact absurd e hi
+        · rw [e]; simp
+      have := h.clean c hm
+      exact ⟨this.1, this.2.2.2.1, this.2.2.2.2, this.2.2.1, this.2.1⟩
+    · exfalso
+      cases r with
+      | ok c' => exact hr c' rfl
+      | none => simp at hs
+      | overflow => simp at hs
+      | connFail _ => simp at hs
+  · simp at hs
+
+/-- a lease hands out either a fresh connection or an open, unclosed, clean one that carries no request -/
+theorem lease_never_dirty (k : Kind) (mc mr : Nat) (prog : List DStep) (h : progOk prog = true) (ls : List Label)
+    (d : Dial) (c : Nat) (s' : State) :
+    step (run (initWith k mc mr prog) ls) (.newStream d) = (s', .ok c) →
+    let s := run (initWith k mc mr prog) ls
+    (c = s.nClients ∨ (c < s.nClients ∧ (s.client c).dirty = false ∧ (s.client c).live = false ∧
+      (s.client c).netOpen = true ∧ (s.client c).closed = false)) := by
+  intro hs
+  exact lease_clean_of_inv _ (inv_run k mc mr prog h ls) d c s' hs
+
 end MosnVerif.Lemmas.PoolWin
